@@ -828,6 +828,8 @@ def random_schema(rng, idx, feature=None):
     unions = []
     for u in range(nu):
         ms = rng.sample(tnames, rng.randint(1, min(3, nt)))
+        for extra in ('SN', 'Txt: string'):      # struct / string members before and between the table members
+            if rng.random() < 0.5: ms.insert(rng.randint(0, len(ms) - 1), extra)
         unions.append({'kind': 'union', 'name': 'U%d' % u, 'members': ms})
     tables = []
     for t in tnames:
